@@ -629,6 +629,10 @@ class IMMachine(FormatMachine):
         doc["header"]["version"] = ver
         if vtuple(ver) < (1, 1):
             doc["header"].pop("type", None)
+        else:
+            doc["header"]["type"] = "productmd.images"      # (the stored copy may be a down-converted one without it)
+        for k in ("legacy", "legacy_version", "legacy_prop", "partial"):
+            d.pop(k, None)                                  # from here on the document is judged as what the injection made of it
         self.fs.put(path, json.dumps(doc, indent=4, sort_keys=True, separators=(",", ": ")))
         CTX.fault("F3.colliding_pair_injected")
         d["clean"] = False
